@@ -15,5 +15,23 @@ if [ "${1:-}" = "full" ]; then
     case "$out" in *"not-as-expected=0"*) ;; *) fail=1 ;; esac
   done
 fi
+# the evidence files the checks have just written and the manifest are valid against their schemas
+python3-vt - <<'PY' || fail=1
+import json, glob, sys, jsonschema
+ok = True
+try:
+    jsonschema.validate(json.load(open('/verif/MANIFEST.json')), json.load(open('/root/.vp/MANIFEST.schema.json')))
+except Exception as e:
+    ok = False; print('MANIFEST invalid:', str(e)[:300])
+sch = json.load(open('/root/.vp/EVIDENCE.schema.json'))
+n = 0
+for f in sorted(glob.glob('/verif/evidence/C*.json')):
+    try:
+        jsonschema.validate(json.load(open(f)), sch); n += 1
+    except Exception as e:
+        ok = False; print(f, 'invalid:', str(e)[:300])
+print('schemas: manifest + %d evidence files valid' % n if ok else 'schemas: INVALID')
+sys.exit(0 if ok and n == 19 else 1)
+PY
 [ $fail = 0 ] && echo "REGRESS OK" || echo "REGRESS FAILED"
 exit $fail
